@@ -79,7 +79,7 @@ class Ctx:
         self.n_discharged = 0
         self.unknown = []
         self.tags = []
-        self._stubs, self._overrides, self._attr_overrides = [], [], []
+        self._stubs, self._overrides, self._attr_overrides, self._globals = [], [], [], []
 
     # ---- inputs
     def _get(self, name):
@@ -302,8 +302,14 @@ class Ctx:
         self._stubs.append((owner, name, _MISSING if missing else orig))
         if self.mode == 'sym':
             target = orig.__func__ if isinstance(orig, (classmethod, staticmethod)) else orig
-            rt.OVERRIDES[id(target)] = replacement
-            self._overrides.append(id(target))
+            if callable(target):
+                rt.OVERRIDES[id(target)] = replacement
+                self._overrides.append(id(target))
+            import types as _t
+            if isinstance(owner, _t.ModuleType):
+                from . import instrument
+                instrument.set_global(owner.__name__, name, replacement)
+                self._globals.append((owner.__name__, name))
         else:
             setattr(owner, name, replacement)
 
@@ -314,6 +320,11 @@ class Ctx:
         if self.mode == 'sym':
             rt.ATTR_OVERRIDES[(id(obj), name)] = value
             self._attr_overrides.append((id(obj), name))
+            import types as _t
+            if isinstance(obj, _t.ModuleType):
+                from . import instrument
+                instrument.set_global(obj.__name__, name, value)
+                self._globals.append((obj.__name__, name))
         else:
             setattr(obj, name, value)
 
@@ -331,7 +342,11 @@ class Ctx:
             rt.OVERRIDES.pop(k, None)
         for k in self._attr_overrides:
             rt.ATTR_OVERRIDES.pop(k, None)
-        self._stubs, self._overrides, self._attr_overrides = [], [], []
+        if self._globals:
+            from . import instrument
+            for m, n in self._globals:
+                instrument.unset_global(m, n)
+        self._stubs, self._overrides, self._attr_overrides, self._globals = [], [], [], []
 
     def ite(self, cond, a, b):
         """fork-free if-then-else on integers / booleans (oracle helper)"""
